@@ -16,7 +16,10 @@ import (
 	"strings"
 	"syscall"
 	"testing"
+	"time"
 
+	cptv "github.com/TheCacophonyProject/go-cptv"
+	"github.com/TheCacophonyProject/go-cptv/cptvframe"
 	"pgregory.net/rapid"
 	kit "verifkit"
 )
@@ -43,6 +46,50 @@ type vfC10Case struct {
 	Sock    vfSockCase `json:"sock"`
 	TestAt  []int      `json:"test_at,omitempty"` // item indices before which a test recording is requested
 	Point   int        `json:"point"`             // replay: the crash point (k-th file-system call after the start marker); 0 = enumerate
+	// Backlog: finished recordings already in the output directory before the daemon starts (a device that has
+	// been offline for a while); they are hard links to one small complete recording, named like older recordings
+	Backlog int `json:"backlog,omitempty"`
+	// Stubborn: the output directory also holds a non-empty directory whose name matches the temporary-file
+	// pattern and which therefore cannot be removed: the clean-up may refuse (return an error), but if it reports
+	// success nothing temporary may be left
+	Stubborn bool `json:"stubborn,omitempty"`
+}
+
+const (
+	vfBacklogPrefix = "20200101."
+	vfStubbornName  = "00000000.000000.000.cptv.temp.d"
+)
+
+// several such entries: directory listings come in hash order, and debris listed before the first undeletable
+// entry is removed even by a clean-up that gives up there
+var vfStubbornNames = []string{vfStubbornName, "99999999.235959.999.cptv.temp.d", "quarantine.cptv.temp.d", "a.cptv.temp.keep"}
+
+// vfBacklogSeed writes one small complete recording with the CPTV library the recorder uses.
+func vfBacklogSeed(root string) string {
+	path := filepath.Join(root, "backlog-seed.cptv")
+	if _, err := os.Stat(path); err == nil {
+		return path
+	}
+	cam := vfCam{X: 8, Y: 6, F: 9}
+	w, err := cptv.NewFileWriter(path+".new", cam)
+	if err != nil {
+		panic(err)
+	}
+	if err := w.WriteHeader(cptv.Header{DeviceName: "backlog", Timestamp: time.Unix(1577836800, 0)}); err != nil {
+		panic(err)
+	}
+	f := cptvframe.NewFrame(cam)
+	for y := range f.Pix {
+		for x := range f.Pix[y] {
+			f.Pix[y][x] = 3000
+		}
+	}
+	if err := w.WriteFrame(f); err != nil {
+		panic(err)
+	}
+	w.Close()
+	os.Rename(path+".new", path)
+	return path
 }
 
 const (
@@ -155,6 +202,22 @@ func vfC10Prepare(c vfC10Case, root string) (dir, out, casePath string) {
 	}
 	sc := c.Sock
 	out = sc.makeOut(dir)
+	if c.Backlog > 0 {
+		seed := vfBacklogSeed(root)
+		for i := 0; i < c.Backlog; i++ {
+			name := filepath.Join(out, fmt.Sprintf("%s%06d.%03d.cptv", vfBacklogPrefix, i/1000, i%1000))
+			if err := os.Link(seed, name); err != nil {
+				b, _ := os.ReadFile(seed)
+				os.WriteFile(name, b, 0644)
+			}
+		}
+	}
+	if c.Stubborn {
+		for _, n := range vfStubbornNames {
+			os.MkdirAll(filepath.Join(out, n), 0755)
+			os.WriteFile(filepath.Join(out, n, "keep"), []byte("x"), 0644)
+		}
+	}
 	conf := vfConf{DeviceName: "c10", Min: sc.Min, Max: sc.Max, Prev: sc.Prev, Cont: sc.Cont, MinDiskMB: 1, BucketS: 600, RefillS: 600,
 		WinStart: "12:00", WinEnd: "12:00", Motion: vfSimpleMotion(sc.Trigger, sc.Edge)}
 	if err := vfWriteConfig(dir, out, conf); err != nil {
@@ -207,6 +270,7 @@ func vfCallName(line string) string {
 
 type vfDirState struct {
 	files   [][]int // frame ids of every *.cptv, in name order
+	backlog int     // finished recordings that were there before the daemon started (not decoded one by one)
 	names   []string
 	others  []string // everything else in the top-level directory (files only)
 	contTmp int
@@ -217,6 +281,9 @@ func vfC10ReadDir(sc vfSockCase, out string) vfDirState {
 	var st vfDirState
 	for _, n := range vfListDir(out) {
 		switch {
+		case n == vfStubbornNames[0]+"/" || n == vfStubbornNames[1]+"/" || n == vfStubbornNames[2]+"/" || n == vfStubbornNames[3]+"/":
+		case strings.HasPrefix(n, vfBacklogPrefix) && strings.HasSuffix(n, ".cptv"):
+			st.backlog++
 		case strings.HasSuffix(n, "/"):
 			for _, m := range vfListDir(filepath.Join(out, n)) {
 				if strings.HasSuffix(m, ".cptv") {
@@ -253,7 +320,7 @@ func vfC10Valid(c vfC10Case) string {
 	if msg := vfSockValid(c.Sock); msg != "" {
 		return msg
 	}
-	if len(c.Sock.Items) > 400 || c.Point < 0 {
+	if len(c.Sock.Items) > 400 || c.Point < 0 || c.Backlog < 0 || c.Backlog > 6000 {
 		return "stream too long"
 	}
 	return ""
@@ -382,6 +449,7 @@ func vfRunC10(c vfC10Case) *kit.Result {
 		points = []int{c.Point}
 	}
 	misaligned, shifted := 0, 0
+	variants := 0
 	inProgress := 0
 	covered := map[int]bool{}
 	for _, k := range points {
@@ -445,11 +513,30 @@ func vfRunC10(c vfC10Case) *kit.Result {
 		if len(st.others) > 0 {
 			inProgress++
 		}
+		// the same crash state in less tidy surroundings (copies of the directory as the kill left it): next to
+		// entries the clean-up cannot delete, and behind a backlog of finished recordings
+		if (len(st.others) > 0 || st.contTmp > 0) && !c.Stubborn && c.Backlog == 0 {
+			variants++
+			if msg := vfC10Variants(c, kdir, kout, variants <= 6); msg != "" {
+				return fail("%s", msg)
+			}
+			r.Count("crash_states_rechecked_in_untidy_directories", 1)
+		}
 		// start-up clean-up, the real one
 		if err := deleteTempFiles(kout); err != nil {
+			if c.Stubborn && len(vfListDir(filepath.Join(kout, vfStubbornName))) > 0 {
+				// refusing loudly is acceptable: the daemon does not start on top of what it could not clean
+				r.Class("cleanup_refused_over_undeletable_entry")
+				r.Count("crash_points", 1)
+				os.RemoveAll(kdir)
+				continue
+			}
 			return fail("deleteTempFiles failed: %v", err)
 		}
 		after := vfC10ReadDir(c.Sock, kout)
+		if after.backlog != c.Backlog || st.backlog != c.Backlog {
+			return fail("%d finished recordings were in the output directory before the daemon started; %d after the kill, %d after the start-up clean-up", c.Backlog, st.backlog, after.backlog)
+		}
 		if after.msg != "" {
 			return fail("after the start-up clean-up: %s", after.msg)
 		}
@@ -483,6 +570,90 @@ func vfRunC10(c vfC10Case) *kit.Result {
 		r.Class("all_points_of_stream")
 	}
 	return r
+}
+
+// vfCopyDir copies the regular files and directories below src (following symbolic links) to dst.
+func vfCopyDir(src, dst string) error {
+	os.MkdirAll(dst, 0755)
+	ents, err := os.ReadDir(src)
+	if err != nil {
+		return err
+	}
+	for _, e := range ents {
+		sp, dp := filepath.Join(src, e.Name()), filepath.Join(dst, e.Name())
+		fi, err := os.Stat(sp)
+		if err != nil {
+			continue
+		}
+		if fi.IsDir() {
+			if err := vfCopyDir(sp, dp); err != nil {
+				return err
+			}
+			continue
+		}
+		b, err := os.ReadFile(sp)
+		if err != nil {
+			return err
+		}
+		if err := os.WriteFile(dp, b, 0644); err != nil {
+			return err
+		}
+	}
+	return nil
+}
+
+// vfC10Variants re-checks the clean-up on copies of a crash state: (a) with undeletable entries matching the
+// temporary-file pattern planted next to the debris - the clean-up may refuse with an error, but if it reports
+// success nothing temporary may be left; (b) behind a backlog of 2600 finished recordings - it must succeed,
+// remove every temporary artefact and no finished recording.
+func vfC10Variants(c vfC10Case, kdir, kout string, withBacklog bool) string {
+	check := func(dir string, wantBacklog int, what string) string {
+		st := vfC10ReadDir(c.Sock, dir)
+		if st.msg != "" {
+			return what + ": " + st.msg
+		}
+		if len(st.others) > 0 || st.contTmp > 0 {
+			return fmt.Sprintf("%s: the start-up clean-up reported success but the output directory still holds %v (and %d temporary files in constant-recordings)", what, st.others, st.contTmp)
+		}
+		if st.backlog != wantBacklog {
+			return fmt.Sprintf("%s: %d of the %d finished recordings are left after the clean-up", what, st.backlog, wantBacklog)
+		}
+		return ""
+	}
+	a := filepath.Join(kdir, "variant-undeletable")
+	if err := vfCopyDir(kout, a); err != nil {
+		return ""
+	}
+	for _, n := range vfStubbornNames {
+		os.MkdirAll(filepath.Join(a, n), 0755)
+		os.WriteFile(filepath.Join(a, n, "keep"), []byte("x"), 0644)
+	}
+	if err := deleteTempFiles(a); err == nil {
+		if msg := check(a, 0, "crash state next to undeletable entries that match the temporary-file pattern"); msg != "" {
+			return msg
+		}
+	}
+	os.RemoveAll(a)
+	if !withBacklog {
+		return ""
+	}
+	b := filepath.Join(kdir, "variant-backlog")
+	if err := vfCopyDir(kout, b); err != nil {
+		return ""
+	}
+	seed := vfBacklogSeed(os.Getenv("VERIF_SCRATCH"))
+	const n = 2600
+	for i := 0; i < n; i++ {
+		os.Link(seed, filepath.Join(b, fmt.Sprintf("%s%06d.%03d.cptv", vfBacklogPrefix, i/1000, i%1000)))
+	}
+	if err := deleteTempFiles(b); err != nil {
+		return fmt.Sprintf("crash state behind a backlog of %d finished recordings: deleteTempFiles failed: %v", n, err)
+	}
+	if msg := check(b, n, fmt.Sprintf("crash state behind a backlog of %d finished recordings", n)); msg != "" {
+		return msg
+	}
+	os.RemoveAll(b)
+	return ""
 }
 
 func vfC10Call(lay vfC10Layout, k int) string {
@@ -531,6 +702,12 @@ func vfGenC10(t *rapid.T) vfC10Case {
 		}
 	}
 	c := vfC10Case{Sock: sc}
+	switch rapid.IntRange(0, 5).Draw(t, "preexisting") {
+	case 0:
+		c.Backlog = rapid.SampledFrom([]int{3, 1100, 2600}).Draw(t, "backlog")
+	case 1:
+		c.Stubborn = true
+	}
 	if rapid.IntRange(0, 2).Draw(t, "testrec") == 0 {
 		c.TestAt = []int{rapid.IntRange(0, len(c.Sock.Items)/2).Draw(t, "testat")}
 	}
@@ -539,6 +716,6 @@ func vfGenC10(t *rapid.T) vfC10Case {
 
 func TestVF_C10(t *testing.T) {
 	kit.Drive(t, "C10", "TestVF_C10",
-		"generated: small Lepton/Boson streams (8x6..14x10, up to ~90 frames) with 1-3 motion recordings, optionally bad frames, 'clear' markers, a test recording and the continuous recorder, into output directories that are plain, named with the recorder's own extensions or glob metacharacters ('rec.temp', 'usb[1]/cptv', 'a*b?c', ...) or symbolic links (the directory itself / its constant-recordings sub-directory); each stream is first run to completion in a child process under strace to number the file-system system calls (openat, write, close, lseek, rename*, unlink*, mkdir*) of the thread that runs handleConn; then the child is re-run and killed with SIGKILL on entering the k-th such call, for every k (thorough) or a stratified sample of ~40 points (quick: all points within 6 calls of every open/rename/unlink of a recording plus an even sample of the rest). Oracle on the surviving directory: every *.cptv decodes from header to exactly NumFrames frames and equals, frame for frame, the corresponding complete recording of the uncrashed run (a kill at a call boundary leaves exactly what a concurrent observer could see at that instant); after the real deleteTempFiles the output directory holds nothing but those complete recordings. Non-trivial: a stream with at least one crash point at which a recording was in progress (temporary artefacts present). Evaluations count the individual kills (plus one per stream); non-trivial ones are the kills at which a recording was in progress, distinct by (stream, crash point).",
+		"generated: small Lepton/Boson streams (8x6..14x10, up to ~90 frames) with 1-3 motion recordings, optionally bad frames, 'clear' markers, a test recording and the continuous recorder, into output directories that are plain, named with the recorder's own extensions or glob metacharacters ('rec.temp', 'usb[1]/cptv', 'a*b?c', ...) or symbolic links (the directory itself / its constant-recordings sub-directory), one stream in 6 with a backlog of up to 2600 finished recordings already there, one in 6 with an undeletable entry that matches the temporary-file pattern (the clean-up may then refuse with an error, but may not report success and leave debris); in addition every crash state with debris is re-checked on copies of the directory with such undeletable entries planted and (for up to 6 states per stream) behind 2600 finished recordings; each stream is first run to completion in a child process under strace to number the file-system system calls (openat, write, close, lseek, rename*, unlink*, mkdir*) of the thread that runs handleConn; then the child is re-run and killed with SIGKILL on entering the k-th such call, for every k (thorough) or a stratified sample of ~40 points (quick: all points within 6 calls of every open/rename/unlink of a recording plus an even sample of the rest). Oracle on the surviving directory: every *.cptv decodes from header to exactly NumFrames frames and equals, frame for frame, the corresponding complete recording of the uncrashed run (a kill at a call boundary leaves exactly what a concurrent observer could see at that instant); after the real deleteTempFiles the output directory holds nothing but those complete recordings. Non-trivial: a stream with at least one crash point at which a recording was in progress (temporary artefacts present). Evaluations count the individual kills (plus one per stream); non-trivial ones are the kills at which a recording was in progress, distinct by (stream, crash point).",
 		vfGenC10, vfRunC10)
 }
